@@ -23,13 +23,13 @@ impl<'a> WireFormat<'a> for DHCID<'a> {
     where
         Self: Sized,
     {
-        let identifier = u16::from_be_bytes(data[*position..*position + 2].try_into()?);
+        let identifier = u16::from_be_bytes(data.get(*position..*position + 2).ok_or(crate::SimpleDnsError::InsufficientData)?.try_into()?);
         *position += 2;
 
-        let digest_type = data[*position];
+        let digest_type = *data.get(*position).ok_or(crate::SimpleDnsError::InsufficientData)?;
         *position += 1;
 
-        let digest = Cow::Borrowed(&data[*position..]);
+        let digest = Cow::Borrowed(data.get(*position..).ok_or(crate::SimpleDnsError::InsufficientData)?);
         *position += digest.len();
 
         Ok(Self {
